@@ -51,10 +51,13 @@ func newChannelBroker(logger Logger) *channelBroker {
 // of connections and starts waiting for data on it.  Data is pushed onto the broker's
 // Response channel
 // Blocks until the context is done, the connection closes, or a critical error
-func (c *channelBroker) RegisterConn(ctx context.Context, conn *uacp.Conn, localCert []byte, localKey *rsa.PrivateKey) error {
+//
+// accept decides which security policy / mode pairs a client may open the channel with.
+func (c *channelBroker) RegisterConn(ctx context.Context, conn *uacp.Conn, localCert []byte, localKey *rsa.PrivateKey, accept func(string, ua.MessageSecurityMode) error) error {
 	cfg := defaultChannelConfig()
 	cfg.Certificate = localCert
 	cfg.LocalKey = localKey
+	cfg.AcceptSecurity = accept
 
 	c.mu.Lock()
 	c.secureChannelID++
@@ -108,6 +111,11 @@ outer:
 			} else if msg.Err != nil {
 				if c.logger != nil {
 					c.logger.Error("Secure Channel %d error: %s", secureChannelID, msg.Err)
+				}
+				if code, ok := msg.Err.(ua.StatusCode); ok && (code == ua.StatusBadSecurityPolicyRejected || code == ua.StatusBadSecurityModeRejected) {
+					// the channel was not opened: tell the client why and hang up
+					conn.SendError(code)
+					conn.Close()
 				}
 				break outer
 			}
